@@ -29,6 +29,15 @@ structure JState where
   quiet   : Bool := false
   needSync : Bool := false
   undisc  : Bool := false
+  /-- flagged nested cases (F13): the keys the race can have touched, instead of "every key".  `pending`: the
+      collections whose outer change awaits its barrier; `involved`: the collections that took part in an outer
+      change made with events in flight (their membership handling can stay wrong for good); `flight`: the keys
+      changed since the last barrier; `window`: such an outer change happened since the last barrier -/
+  tainted : List Key := []
+  pending : List Nat := []
+  involved : List Nat := []
+  flight  : List Key := []
+  window  : Bool := false
   flagged : Bool := false
   started : Bool := false
   cols    : List (List JObj) := []
@@ -37,6 +46,8 @@ structure JState where
   unsafeK : List Key := []
   nsubs   : Nat := 0
   subs    : AMap FinMap := []
+  /-- subscribers whose handler was unregistered: the contents at that moment -/
+  jfrozen : AMap FinMap := []
 
 def parseJObj (t : String) : Option JObj :=
   match t.splitOn ";" with
@@ -74,21 +85,50 @@ def touch (j : JState) (k : Key) (i : Nat) : JState :=
   let j' := { j with touched := AMap.set j.touched k (l ++ [i]) }
   if l.length + 1 ≥ 2 && j.nsubs > 0 then addUnsafe j' [k] else j'
 
-def jbarrier (j : JState) : JState := { j with touched := [], quiet := true, needSync := false }
+def jbarrier (j : JState) : JState :=
+  { j with touched := [], quiet := true, needSync := false, pending := [], flight := [], window := false }
 
-/-- an operation on a joined collection (or a registration) -/
-def innerOp (j : JState) : JState :=
-  if j.nested && j.started then { j with quiet := false, undisc := j.undisc || j.needSync } else j
+def taint (j : JState) (ks : List Key) : JState :=
+  { j with tainted := j.tainted ++ dedupS (ks.filter (fun k => !j.tainted.contains k)) }
 
-/-- a change of the outer collection -/
-def outerOp (j : JState) : JState :=
-  if j.nested && j.started then { j with undisc := j.undisc || !j.quiet || j.needSync, quiet := false, needSync := true } else j
+def keysOfCol (j : JState) (i : Nat) : List Key := (j.cols.getD i []).map (·.key)
+
+/-- an outer change meets events in flight: the collections whose outer change is pending are involved, their
+    keys and the keys in flight are tainted, and so is every key changed before the next barrier -/
+def raced (j : JState) : JState :=
+  let j1 := { j with involved := j.involved ++ j.pending.filter (fun i => !j.involved.contains i), window := true }
+  taint j1 (j.pending.flatMap (keysOfCol j) ++ j.flight)
+
+/-- an operation on joined collection `i` that changes key `k` (a registration: no key) -/
+def innerOp (j : JState) (k : Option Key := none) (i : Nat := 0) : JState :=
+  if j.nested && j.started then
+    let j1 := { j with quiet := false, undisc := j.undisc || j.needSync,
+                       flight := match k with | some k => k :: j.flight | none => j.flight }
+    let j2 := if j.needSync then raced j1 else j1
+    match k with
+    | some k => if j2.window || j2.involved.contains i then taint j2 [k] else j2
+    | none => j2
+  else j
+
+/-- a change of the outer collection that concerns collection `i` -/
+def outerOp (j : JState) (i : Nat) : JState :=
+  if j.nested && j.started then
+    let bad := !j.quiet || j.needSync
+    let j1 := { j with undisc := j.undisc || bad, quiet := false, needSync := true,
+                       pending := if j.pending.contains i then j.pending else i :: j.pending }
+    let j2 := if bad then raced j1 else j1
+    if j2.involved.contains i then taint j2 (keysOfCol j2 i) else j2
+  else j
 
 def startTouched (cols : List (List JObj)) : AMap (List Nat) :=
   let keys := dedupS (cols.flatMap (fun c => c.map (·.key)))
   keys.map (fun k => (k, (List.range cols.length).filter (fun i => ((cols.getD i []).any (fun o => o.key == k)))))
 
-def jInU (j : JState) (k : Key) : Bool := j.flagged && (j.nested || j.unsafeK.contains k)
+/-- the keys of the known class of a flagged case: F10 - the keys changed by two collections between barriers;
+    F13 (nested) - the tainted keys, and the key of the zero-valued object (`/`) under which a Delete with a
+    zero-valued Old arrives -/
+def jInU (j : JState) (k : Key) : Bool :=
+  j.flagged && (if j.nested then j.tainted.contains k || k == "" || k == "/" else j.unsafeK.contains k)
 
 def jguard (j : JState) : Option String :=
   if !j.started then some "not-started"
@@ -108,21 +148,21 @@ def stepJ (j : JState) (toks : List String) : JState × String :=
        merge := stream.startsWith "joinm" || nn, nested := nn, member := List.replicate (n.toNat?.getD 2) false }, "ok")
   | ["o.add", i] =>
     match i.toNat? with
-    | some i => if i < j.cols.length then ({ outerOp j with member := j.member.set i true }, "ok") else (j, "bad-op")
+    | some i => if i < j.cols.length then ({ outerOp j i with member := j.member.set i true }, "ok") else (j, "bad-op")
     | none => (j, "bad-op")
   | ["o.del", i] =>
     match i.toNat? with
-    | some i => if i < j.cols.length then ({ outerOp j with member := j.member.set i false }, "ok") else (j, "bad-op")
+    | some i => if i < j.cols.length then ({ outerOp j i with member := j.member.set i false }, "ok") else (j, "bad-op")
     | none => (j, "bad-op")
   | ["o.touch", i] =>
     match i.toNat? with
-    | some i => if i < j.cols.length then ((if j.member.getD i false then outerOp j else j), "ok") else (j, "bad-op")
+    | some i => if i < j.cols.length then ((if j.member.getD i false then outerOp j i else j), "ok") else (j, "bad-op")
     | none => (j, "bad-op")
   | ["c.set", i, o] =>
     match i.toNat?, parseJObj o with
     | some i, some o =>
       if i < j.cols.length then
-        let j' := touch (innerOp j) o.key i
+        let j' := touch (innerOp j (some o.key) i) o.key i
         ({ j' with cols := updCol j'.cols i (fun c => jset c o) }, "ok")
       else (j, "bad-op")
     | _, _ => (j, "bad-op")
@@ -131,7 +171,7 @@ def stepJ (j : JState) (toks : List String) : JState × String :=
     | some i =>
       if i < j.cols.length then
         if (jget (j.cols.getD i []) k).isSome then
-          let j' := touch (innerOp j) k i
+          let j' := touch (innerOp j (some k) i) k i
           ({ j' with cols := updCol j'.cols i (fun c => jdel c k) }, "ok")
         else (j, "ok")
       else (j, "bad-op")
@@ -146,6 +186,11 @@ def stepJ (j : JState) (toks : List String) : JState × String :=
     let j := addUnsafe j (multi j)
     ({ j with nsubs := j.nsubs + 1,
               subs := AMap.set j.subs name (if kind == "nostate" then jcontents j else []) }, "ok")
+  | ["junsub", name] =>
+    if !j.started then (j, "ok") else
+    let j := jbarrier j
+    (if (AMap.lookup j.subs name).isSome && (AMap.lookup j.jfrozen name).isNone
+      then { j with jfrozen := AMap.set j.jfrozen name (jcontents j) } else j, "ok")
   | ["list"] =>
     let j := jbarrier j
     (j, "list " ++ janswer j false (fun j => showMap (restrictMap (fun k => !jInU j k) (jcontents j))))
@@ -171,13 +216,10 @@ def stepJ (j : JState) (toks : List String) : JState × String :=
   | "stream" :: name :: evs =>
     let j := jbarrier j
     (j, "stream " ++ janswer j false (fun j =>
-      if j.flagged && j.nested then
-        (if (AMap.lookup j.subs name).isSome then "accept" else "unknown-subscriber")   -- every key is in U
-      else
       match parseEvents evs, AMap.lookup j.subs name with
       | some es, some m0 =>
         let p := fun k => !jInU j k
-        showVerdict (restrictMap p m0) (restrictStream p es) (restrictMap p (jcontents j))
+        showVerdict (restrictMap p m0) (restrictStream p es) (restrictMap p ((AMap.lookup j.jfrozen name).getD (jcontents j)))
       | none, _ => "reject:malformed-event"
       | _, none => "unknown-subscriber"))
   | "ustream" :: name :: evs =>
@@ -185,7 +227,8 @@ def stepJ (j : JState) (toks : List String) : JState × String :=
     (j, "ustream " ++ janswer j true (fun j =>
       match parseEvents evs, AMap.lookup j.subs name with
       | some es, some m0 =>
-        showVerdict (restrictMap (jInU j) m0) (restrictStream (jInU j) es) (restrictMap (jInU j) (jcontents j))
+        showVerdict (restrictMap (jInU j) m0) (restrictStream (jInU j) es)
+          (restrictMap (jInU j) ((AMap.lookup j.jfrozen name).getD (jcontents j)))
       | none, _ => "reject:malformed-event"
       | _, none => "unknown-subscriber"))
   | _ => (j, "bad-op")
